@@ -499,7 +499,12 @@ func (b *Buffer) cleanup() {
 
 			// do the actual cleanup logic, note that though it returns a bool indicating if it actually did anything,
 			// the current implementation applies the cooldown regardless of if it did anything
-			b.cleanupLogic()
+			// it's re-applied until there is nothing (more) to shift, because this goroutine is the only one that acts
+			// on the broadcast that cleanupLogic sends after shifting, and it isn't waiting right now, meaning values
+			// that only became removable because of that shift (e.g. after the forced trim of FixedBufferCleaner,
+			// values all consumers have already committed) would otherwise remain until some unrelated change
+			for b.cleanupLogic() {
+			}
 
 			// no wait?
 			if d <= 0 {
